@@ -112,7 +112,7 @@ def _wf(rng):
 
 def gen(rng, tier):
     cases = []
-    n = 220 if tier == "quick" else 2500
+    n = 220 if tier == "quick" else 8000
     for i in range(n):
         k = rng.random()
         if k < 0.55:
